@@ -183,6 +183,33 @@ func (cs *ContractSet) parseFile(path, pkgPath string) error {
 			cpkg := pkgPath
 			if kw == "extern" {
 				// extern <pkgpath>.<Func>(params) (results): assumed contract of a function outside the repository
+				if strings.HasPrefix(rest, "interface ") {
+					// extern interface <pkgpath>.<Iface>.<Method>(params) (results): assumed contract of a
+					// method of an interface declared outside the repository
+					r2 := strings.TrimSpace(strings.TrimPrefix(rest, "interface "))
+					j := strings.Index(r2, "(")
+					if j < 0 {
+						return fail(fmt.Errorf("extern interface expects pkgpath.Iface.Method(...)"))
+					}
+					i2 := strings.LastIndex(r2[:j], ".")
+					i1 := strings.LastIndex(r2[:i2], ".")
+					if i1 < 0 || i2 < 0 {
+						return fail(fmt.Errorf("extern interface expects pkgpath.Iface.Method(...)"))
+					}
+					c, err := parseFuncLine("interface", r2[i1+1:], r2[:i1])
+					if err != nil {
+						return fail(err)
+					}
+					c.Assumed = "external interface method"
+					c.SpecPkg = pkgPath
+					c.Src, c.Line = path, lineNos[i]
+					if _, dup := cs.Funcs[c.Key]; dup {
+						return fail(fmt.Errorf("duplicate contract for %s", c.Key))
+					}
+					cs.Funcs[c.Key] = c
+					cur = c
+					continue
+				}
 				if m := externMethodRE.FindStringSubmatch(rest); m != nil {
 					// extern <pkgpath>.(*T).Method(params) (results): the receiver is called self
 					cpkg, rest = m[1], "(self "+m[2]+") "+m[3]+m[4]
